@@ -269,13 +269,18 @@ impl<'a> M<'a> {
         self.emit(Obs::Kill { child: k });
         let now = self.now;
         let c = &mut self.children[k as usize];
-        let st = match c.death {
-            Some((at, st)) if at <= now => st,
+        let lag = c.spec.kill_lag;
+        let (at, st) = match c.death {
+            Some((at, st)) if at <= now + lag => (at.max(now), st),
             _ => {
-                c.death = Some((now, 1009));
-                1009
+                c.death = Some((now + lag, 1009));
+                (now + lag, 1009)
             }
         };
+        // a process that is slow to die keeps the job task waiting inside this control
+        if at > now {
+            self.busy(at - now);
+        }
         self.emit(Obs::Reaped { child: k, status: st });
         self.cur = Cur::Finished(st);
         for t in std::mem::take(&mut self.on_end) {
@@ -711,6 +716,9 @@ pub fn gen_model_random(rng: &mut Rng) -> E1Scn {
             c.fail_kill = rng.chance(1, 5);
             c.fail_signal = rng.chance(1, 6);
             c.fail_wait = rng.chance(1, 8);
+            if rng.chance(1, 6) {
+                c.kill_lag = *rng.pick(&[7u64, 61, 5003]);
+            }
             c
         })
         .collect();
@@ -793,6 +801,9 @@ impl Check for C09 {
                 if want.iter().any(|(_, o)| matches!(o, Obs::WaitFail)) {
                     stats.hit("fault:wait-error");
                 }
+                if scn.children.iter().any(|c| c.kill_lag > 0) && want.iter().any(|(_, o)| matches!(o, Obs::Kill { .. })) {
+                    stats.hit("fault:slow-death-after-kill");
+                }
                 if want.iter().any(|(_, o)| matches!(o, Obs::Err { .. })) {
                     stats.hit("probe:error-handler-called");
                 }
@@ -857,6 +868,7 @@ impl Check for C09 {
             "fault:kill-error",
             "fault:signal-error",
             "fault:wait-error",
+            "fault:slow-death-after-kill",
             "probe:error-handler-called",
             "probe:spawn-hook-called",
             "probe:kill",
